@@ -130,7 +130,7 @@ def _hash_for(key):
 
 
 def make_cert(subject_key, issuer_key=None, subject_cn="subject", issuer_cn=None, ca: bool = True, serial: int = 0x1000,
-              path_length=None, key_cert_sign=None) -> x509.Certificate:
+              path_length=None, key_cert_sign=None, sign_hash: str | None = None) -> x509.Certificate:
     """X.509 v3 certificate, byte-stable apart from randomised signatures (ECDSA / none for RSA PKCS#1)."""
     issuer_key = issuer_key or subject_key
     issuer_cn = issuer_cn or subject_cn
@@ -150,7 +150,8 @@ def make_cert(subject_key, issuer_key=None, subject_cn="subject", issuer_cn=None
                       key_agreement=False, key_cert_sign=kcs, crl_sign=False, encipher_only=False, decipher_only=False),
         critical=True,
     )
-    return b.sign(issuer_key, _hash_for(issuer_key))
+    h = {"sha256": hashes.SHA256(), "sha384": hashes.SHA384(), "sha512": hashes.SHA512()}[sign_hash] if sign_hash else _hash_for(issuer_key)
+    return b.sign(issuer_key, h)
 
 
 def make_chain(keys: list, cn_prefix: str = "c", last_ca: bool = False) -> list[x509.Certificate]:
